@@ -189,10 +189,19 @@ impl NodeDrive {
                         // The rewritten files no longer hold this key: forget the tombstone, its
                         // disk offset is stale and must not be updated in place later
                         let mut map = db.map.write().unwrap();
-                        if let Some(current) = map.get(&key) {
-                            if current.state == ValueStatus::Deleted {
+                        let written_again = match map.get(&key) {
+                            Some(current) if current.state == ValueStatus::Deleted => {
                                 map.remove(&key);
+                                None
                             }
+                            // Written again since the copy of the keys was taken: the rewritten
+                            // files do not hold the key, it is new to them
+                            Some(current) => Some(current.clone()),
+                            None => None,
+                        };
+                        if let Some(mut value) = written_again {
+                            value.state = ValueStatus::New;
+                            map.insert(key.clone(), value);
                         }
                     }
                 }
